@@ -665,6 +665,116 @@ impl Runner {
     }
 }
 
+
+// ---- COLT forest ----------------------------------------------------------------------------------
+
+use lattices::ColtType;
+use lattices::ght::colt::ColtGet;
+type Forest3 = ColtType!(u32, u32, u32);
+
+/// `#case n colt=3`: a forest over three u32 columns driven through `ColtGet::get`
+pub struct ColtRunner {
+    ok: bool,
+    forest: Forest3,
+    hist: Vec<Row>,
+}
+fn forest_dumps(f: &Forest3) -> Vec<String> {
+    vec![Dump::dump(&f.0), Dump::dump(&f.1.0), Dump::dump(&f.1.1.0), Dump::dump(&f.1.1.1.0)]
+}
+fn forest_rows(f: &Forest3) -> Vec<Row> {
+    let mut v: Vec<Row> = rows_of!(S3, f.0.recursive_iter());
+    v.extend(rows_of!(S3, f.1.0.recursive_iter()));
+    v.extend(rows_of!(S3, f.1.1.0.recursive_iter()));
+    v.extend(rows_of!(S3, f.1.1.1.0.recursive_iter()));
+    v
+}
+impl ColtRunner {
+    pub fn new(tag: &str) -> ColtRunner {
+        let m = tag.split(' ').find_map(|w| w.strip_prefix("colt=")).unwrap_or("");
+        ColtRunner { ok: m == "3", forest: Forest3::default(), hist: vec![] }
+    }
+    pub fn exec(&mut self, line: &str, rec: &mut Recorder) -> String {
+        if !self.ok {
+            return "bad-op".into();
+        }
+        let parts: Vec<&str> = line.split(' ').collect();
+        match &parts[..] {
+            ["F", "insert", r] => match parse_row(r).filter(|t| t.len() == 3) {
+                Some(r) => {
+                    let out = self.forest.0.insert(S3::from_row(&r));
+                    self.hist.push(r);
+                    rec.check(out, "ght-insert-flag", line);
+                    rec.check(multiset(&forest_rows(&self.forest)) == multiset(&self.hist), "colt-rows@insert", line);
+                    out.to_string()
+                }
+                None => "bad-op".into(),
+            },
+            ["F", "get", p] => match parse_row(p).filter(|t| !t.is_empty() && t.len() <= 3) {
+                Some(p) => {
+                    // the cursor borrows the forest: print it inside the borrow, element by element
+                    let (cursor, cursor_rows): (Vec<String>, Vec<Row>) = {
+                        let c1 = ColtGet::get(self.forest.as_mut_var(), &p[0]);
+                        if p.len() == 1 {
+                            let var_expr!(a, b, c) = c1;
+                            let mut rows: Vec<Row> = rows_of!(S3, a.recursive_iter());
+                            rows.extend(rows_of!(S3, b.recursive_iter()));
+                            rows.extend(rows_of!(S3, c.recursive_iter()));
+                            (vec![Dump::dump(&*a), Dump::dump(&*b), Dump::dump(&*c)], rows)
+                        } else {
+                            let c2 = ColtGet::get(c1, &p[1]);
+                            if p.len() == 2 {
+                                let var_expr!(a, b) = c2;
+                                let mut rows: Vec<Row> = rows_of!(S3, a.recursive_iter());
+                                rows.extend(rows_of!(S3, b.recursive_iter()));
+                                (vec![Dump::dump(&*a), Dump::dump(&*b)], rows)
+                            } else {
+                                let c3 = ColtGet::get(c2, &p[2]);
+                                let var_expr!(a) = c3;
+                                (vec![Dump::dump(&*a)], rows_of!(S3, a.recursive_iter()))
+                            }
+                        }
+                    };
+                    rec.check(multiset(&forest_rows(&self.forest)) == multiset(&self.hist), "colt-rows@get", line);
+                    let want: Vec<Row> = self.hist.iter().filter(|r| r[..p.len()] == p[..]).cloned().collect();
+                    rec.check(multiset(&cursor_rows) == multiset(&want), "colt-cursor-rows", &format!("{line}: cursor={}", show_sorted(cursor_rows.clone())));
+                    rec.count(&format!("colt-get:len={}:{}", p.len(), if want.is_empty() { "miss" } else { "hit" }));
+                    cursor.join("|")
+                }
+                None => "bad-op".into(),
+            },
+            ["F", "dump"] => forest_dumps(&self.forest).join("|"),
+            ["F", "rows"] => show_sorted(forest_rows(&self.forest)),
+            _ => "bad-op".into(),
+        }
+    }
+}
+
+pub fn gen_colt_case(rng: &mut Rng, steps: usize, dom: u64, malformed: bool) -> Vec<String> {
+    let mut ls = vec![];
+    for _ in 0..steps {
+        let l = match rng.below(10) {
+            0..=4 => format!("F insert {}", show_row(&gen_row(rng, 3, dom))),
+            5..=7 => {
+                let n = 1 + rng.below(3) as usize;
+                format!("F get {}", show_row(&gen_row(rng, n, dom)))
+            }
+            8 => "F dump".into(),
+            _ => "F rows".into(),
+        };
+        ls.push(l);
+    }
+    ls.push("F dump".into());
+    ls.push("F rows".into());
+    if malformed {
+        ls.push("F get 1,2,3,4".into());
+        ls.push("F get -".into());
+        ls.push("F insert 1,2".into());
+        ls.push("A rows".into());
+        ls.push("F frob".into());
+    }
+    ls
+}
+
 // ---- generation -------------------------------------------------------------------------------
 
 fn gen_row(rng: &mut Rng, ar: usize, dom: u64) -> Row {
@@ -777,6 +887,21 @@ pub fn exhaustive_cases(k: usize, v: usize, len: usize) -> Vec<Vec<String>> {
 
 pub fn run_case(no: u64, tag: &str, lines: &[String], rec: &mut Recorder) {
     rec.case(no, tag);
+    if tag.split(' ').any(|w| w.starts_with("colt=")) {
+        let mut r = ColtRunner::new(tag);
+        let mut gets = 0;
+        for l in lines {
+            let out = r.exec(l, rec);
+            if l.starts_with("F get") && out != "bad-op" && out.contains(',') {
+                gets += 1;
+            }
+            rec.line(l, &out);
+        }
+        if gets >= 2 {
+            rec.nontrivial();
+        }
+        return;
+    }
     let mut r = Runner::new(tag);
     for l in lines {
         let out = r.exec(l, rec);
@@ -787,7 +912,7 @@ pub fn run_case(no: u64, tag: &str, lines: &[String], rec: &mut Recorder) {
     }
 }
 
-pub const RULE: &str = "c08: histories of insert/new/merge/merge_node/contains/prefix/get/fcl/eq/cmp/deep-join/cartesian-product/force_drain on two tries of one shape (key/value splits 0+2,1+1,2+1,1+2,2+0,3+1; hash-set, counted, column storage) over column domain {0..dom}, dom 2..4; non-trivial = the history merges or deep-joins two tries that share a first key column but differ in a row; distinct = distinct op-line sequences";
+pub const RULE: &str = "c08: histories of insert/new/merge/merge_node/contains/prefix/get/fcl/eq/cmp/deep-join/cartesian-product/force_drain on two tries of one shape (key/value splits 0+2,1+1,2+1,1+2,2+0,3+1; hash-set, counted, column storage) over column domain {0..dom}, dom 2..4; non-trivial = the history merges or deep-joins two tries that share a first key column but differ in a row; distinct = distinct op-line sequences; colt=3 cases: insert / chained ColtGet::get / dump histories on a ColtType!(u32,u32,u32) forest, non-trivial = at least two gets that reach rows";
 
 pub fn generate(seed: u64, cases: u64, tier: &str, rec: &mut Recorder) {
     let root = Rng::new(seed);
@@ -801,6 +926,15 @@ pub fn generate(seed: u64, cases: u64, tier: &str, rec: &mut Recorder) {
     }
     for i in 0..cases {
         let mut rng = root.fork(i);
+        if rng.chance(1, 8) {
+            let steps = rng.range(3, if tier == "thorough" { 40 } else { 20 }) as usize;
+            let dom = rng.range(2, 3);
+            let malformed = rng.chance(1, 10);
+            let ls = gen_colt_case(&mut rng, steps, dom, malformed);
+            no += 1;
+            run_case(no, if rng.chance(1, 40) { "colt=4" } else { "colt=3" }, &ls, rec);
+            continue;
+        }
         let (k, v) = *rng.pick(&SHAPES);
         let st = *rng.pick(&["hs", "hs", "cs", "col"]);
         let steps = rng.range(3, if tier == "thorough" { 60 } else { 25 }) as usize;
